@@ -407,6 +407,17 @@ def fam_nested(sid, ids, nests, with_av, rng, cfg, prop):
             env['_tag'] = 'mu=1'
             env.update(zenv)
             s.evaluate(env, ids, engine=(k == 0))
+            if with_av and k == 0:
+                # availabilities coded by a COUNT (0, 2, 3 ...): available means "not zero", in the scaled and in the unscaled version
+                env = base_env(ids, rng, pat)
+                for n_, i_ in enumerate(ids):
+                    if env.get(f'AV{i_}', 1.0) != 0.0:
+                        env[f'AV{i_}'] = float(2 + n_ % 2)
+                env['MU'] = 1.0
+                env.update({f'MU{m + 1}': mu_value(rng) for m in range(len(nests))})
+                env['_tag'] = 'mu=1'
+                env.update(zenv)
+                s.evaluate(env, ids, engine=True)
             env = base_env(ids, rng, pat)
             env['MU'] = 1.0
             env.update({f'MU{m + 1}': 1.0 for m in range(len(nests))})
